@@ -568,7 +568,10 @@ theorem queueLoop_single (sk : Bool) (op rp qp refEnd : Nat) (vp : VP) :
       · by_cases h4 : sk = true ∧ (v.ref.length == 0) = true ∧ (v.pos == rp) = true
         · right; simp only [queueLoop, h1, if_false, if_neg h2, if_neg h3, if_pos h4]; simp
         · right
-          simp only [queueLoop, h1, if_false, if_neg h2, if_neg h3, if_neg h4]
+          have hq : ∃ qs, queueLoop sk op rp qp refEnd [(id, v)] = ([⟨id, v, qs, buildVarProgress v⟩], []) :=
+            ⟨_, by simp only [queueLoop, h1, if_false, if_neg h2, if_neg h3, if_neg h4]; rfl⟩
+          obtain ⟨qs, hq⟩ := hq
+          rw [hq]
           exact ⟨rfl, Or.inr ⟨_, rfl, buildVarProgress_WF _ _ _⟩⟩
 
 theorem queueLoop_cons_pass (sk : Bool) (op rp qp refEnd id : Nat) (v : Variant) (rest : List VP)
